@@ -10,7 +10,8 @@ from common import prove, driver
 P = "Matid.Props.C01."
 THEOREMS = [P + t for t in ("localize_disjoint", "localize_only_removes", "merge_species_invariant", "merge_terminates", "merge_keeps_atoms_in_range",
                             "clean_is_largest_component", "driver_terminates", "driver_indices_in_range", "pipeline_order_ok",
-                            "entry_rules_ok", "sbc_keeps_no_state", "pipeline_wellformed")]
+                            "entry_rules_ok", "sbc_keeps_no_state", "pipeline_wellformed")] + \
+    ["Matid.Props.Proto.accepted_periodicity"]
 TRUSTED = ["Lean 4 kernel", "axioms: propext, Classical.choice, Quot.sound at most (audited per run)",
            "hand-written model MatidModel/SBC.lean tied by (a) direct drive of _merge_clusters/_localize_clusters/_clean_clusters with synthetic clusters and (b) recorded finder histories of real get_clusters runs",
            "the periodic finder is a parameter of the model (its outputs are arbitrary data in the theorems); DBSCAN contract D1 for the components",
@@ -122,6 +123,7 @@ def recorded_runs(ctx, nrun):
     import crystals
     rng = np.random.default_rng(ctx.seed + 101)
     lines, runs, bad = [], [], []
+    proto_records = []
     shared = SBC()      # ONE object for all runs: a result must not depend on what the object did before
     prev_case = prev_case_next = None
     for k in range(nrun):
@@ -135,8 +137,9 @@ def recorded_runs(ctx, nrun):
         case = {"atoms": crystals.atoms_to_json(a), "params": params, "seed": seed, "kind": kind}
         zero_pbc = any((not np.array(a.get_cell())[i].any()) and a.get_pbc()[i] for i in range(3))
         try:
-            with SC.FinderRecorder() as rec:
+            with SC.FinderRecorder() as rec, SC.ProtoRecorder() as prec:
                 clusters = shared.get_clusters(a, seed=seed, **params)
+            proto_records.extend(prec.records)
         except ValueError as e:
             if not zero_pbc:
                 bad.append({"case": case, "complaints": ["ValueError for a valid cell: %s" % e]})
@@ -186,6 +189,15 @@ def recorded_runs(ctx, nrun):
                                                 SC.matrix_str(np.clip(dist, 0, None) <= thr), hist or "-"))
         runs.append((case, clusters))
     mism = []
+    # acceptance tree of _find_proto_cell: every recorded call vs the Lean decision tree
+    plines = [SC.proto_line(r) for r in proto_records]
+    if plines:
+        for r, o, pl in zip(proto_records, driver(plines), plines):
+            want = "reject" if r["accepted"] is None else "accept %d %d %d" % r["accepted"]
+            ctx.case(("proto", pl), nontrivial=r["accepted"] is not None)
+            ctx.count("proto_" + want.split()[0])
+            if o != want:
+                mism.append({"what": "_find_proto_cell acceptance", "op": pl, "model": o, "real": want})
     if lines:
         out = driver(lines)
         for (case, clusters), o, line in zip(runs, out, lines):
@@ -201,13 +213,13 @@ def recorded_runs(ctx, nrun):
 def run(ctx):
     common.install_matid()
     broken = []
-    terr = common.regen(ctx, ("sbc_rule",))
+    terr = common.regen(ctx, ("sbc_rule", "proto_rule"))
     if terr:
         for t in THEOREMS:
             ctx.obligations.append((t, False))
         broken.append(("translator", terr))
     else:
-        ok, info = prove(ctx, "MatidProps.C01", THEOREMS)
+        ok, info = prove(ctx, "MatidProps.C01", THEOREMS, extra_imports=("MatidProps.Proto",), gen_targets=("MatidProps.Proto",))
         if not ok:
             broken.append(("proof", info))
     mism = []
